@@ -270,6 +270,12 @@ func startGatewayHealthCheck(e *EndpointInfo, interval time.Duration, ctx contex
 		for {
 			select {
 			case <-e.healthCheckCh:
+				// select chooses at random when both channels are ready: a queued
+				// trigger must not probe an endpoint whose health checking has been
+				// stopped (endpoint disabled or removed)
+				if ctx.Err() != nil {
+					return
+				}
 				e.healthCheckFun(e)
 			case <-ctx.Done():
 				return
